@@ -121,6 +121,17 @@ CHECKS.update({
     note="Abstains on uncertain ISO 6937 cells, STL30.01 drop/non-drop reading, irregular cumulative sequences, space cells produced by control codes, exact region numbers.",
     design="DESIGN.md section 4, C09"),
 })
+CHECKS.update({
+  "C16": dict(
+    technique="runtime monitoring: post-state invariant walker over the filtered document + reference snapshots of the pre-filter document compared with snapshots of the filtered one + idempotence by structural fingerprint",
+    text="LCDDocFilter is run on generated documents (regions with origin/position/extent in every unit, writing modes, timed regions, animation, "
+         "with and without body) under safe_area/preserve_text_align/color/bg_color configurations; afterwards no animation step or style outside "
+         "the allowed set may remain, every region must occupy the safe area, no reference may dangle, equal regions must be merged with references "
+         "redirected to a region of the same timing, the set of visible text tokens per time must be unchanged (documents without hiding styles), "
+         "configured colour/background/alignment must be what snapshots compute, and a second application must not change the document.",
+    note="Known finding D-LCD-NESTED-REGION-CONFLICT attributed by an exact classifier; the filter erases writing modes, so merging is judged on timing and resulting displayAlign.",
+    design="DESIGN.md section 4, C16"),
+})
 NOT_CLAIMED = {}
 
 def main():
